@@ -136,7 +136,7 @@ type c18Out struct {
 var c18LinkLine = regexp.MustCompile(`(?m)^(//# sourceMappingURL=.*|/\*# sourceMappingURL=.*\*/|/\*! For license information please see .* \*/)\n?`)
 
 func runC18(c *Check) {
-	c.Rule = "8 build families x 15 option variants (hashed name templates; minify, source-map modes, legal-comment modes, two public paths, short templates) x every single-point edit of every input file (code, comment-only, whitespace-only, legal-comment-only, JSON value, asset byte): all builds of a family are compared pairwise: a file emitted under the same path by two builds must have identical bytes (incl. .map and .LEGAL.txt siblings); every import specifier, url(), sourceMappingURL and legal-comment link in every output resolves to a file of the same build; no output contains a placeholder (16-char key + kind letter + 8 digits); distinct = distinct (path, content) pairs"
+	c.Rule = "8 build families x 15 option variants (hashed name templates; minify, source-map modes, legal-comment modes, two public paths, short templates) x every single-point edit of every input file (code, comment-only, whitespace-only, legal-comment-only, JSON value, asset byte): all builds of a family are compared pairwise: a file emitted under the same path by two builds must have identical bytes (incl. .map and .LEGAL.txt siblings); every import specifier, url(), sourceMappingURL and legal-comment link in every output resolves to a file of the same build; no output contains a placeholder (16-char key + kind letter + 8 digits); distinct = distinct (path, content) pairs; variants where only some name templates carry [hash] and the oracle that every [hash] placeholder is filled in"
 	c.Assump = []string{"'name changes whenever content changes' is decided through its contrapositive over all pairs of builds: equal path => equal bytes, which also covers transitive referrers because a referrer embeds the referenced name"}
 	root := scratchRoot("c18")
 	defer os.RemoveAll(root)
